@@ -383,6 +383,40 @@ def run(tier):
                 rec.emit({"ev": "Call", "gap": g, "delay": max(min(delay, 2 ** 31 - 1), -2 ** 31 + 1)})
                 rel = ts + delay
             ntr += 1
+    # intervals longer than one second (rps < 1), through get_timeout and through wait_sync() / wait() under the virtual clock.
+    # TLC's integers are 32-bit: these runs are recorded in microseconds (every quantity is a multiple of 1000 ns by construction)
+    import gufo.snmp.policer as P
+    for rps in (0.8, 0.5, 0.25, 0.1):
+        for mode in ("get_timeout", "wait_sync", "wait"):
+            pol = RPSPolicer(rps)
+            D = pol._delta
+            if D % 1000:
+                continue
+            clock = VClock(BASE)
+            saved = (P.perf_counter_ns, P.sleep, P.asyncio)
+
+            class AsyncShim2:
+                sleep = staticmethod(clock.asleep)
+            P.perf_counter_ns, P.sleep, P.asyncio = clock.perf_counter_ns, clock.sleep, AsyncShim2
+            try:
+                rec.emit({"ev": "New", "D": D // 1000})
+                st = {"rel": BASE}
+                gaps = [0, 0, 0, D // 2, 0, D, 0, (3 * D) // 4, 0, 0, 2 * D, 0, D // 4, D - 1000, 0, 1000, 0]
+                first = True
+                for g in gaps:
+                    g = (g // 1000) * 1000
+                    step = dict(act="First" if first else "Call", gap=0 if first else g)
+                    first = False
+                    try:
+                        delay, adv = _apply(pol, mode, st, step, clock)
+                    except Exception as e:
+                        rec.emit({"ev": "Crash", "exc": type(e).__name__})
+                        break
+                    rec.emit({"ev": "Call", "gap": step["gap"] // 1000, "delay": max(min(int(delay) // 1000, 2 ** 31 - 1), -2 ** 31 + 1)})
+                chk.case(("long-interval", rps, mode))
+                ntr += 1
+            finally:
+                P.perf_counter_ns, P.sleep, P.asyncio = saved
     path = rec.close()
     v = trace.validate("TracePolicer.tla", "TracePolicer.cfg", path, timeout=1200)
     chk.add_tlc(v["res"], "TracePolicer")
